@@ -12,6 +12,8 @@ from sa.core import rule, AnalysisError
 from sa.pyindex import get_module, dotted, src, kwarg, calls_in, try_fold
 from sa import flow
 from rules import c11 as _c11  # R1.6 shares the hierarchy-direction analysis
+from rules import _minieval as _me
+from rules import _util_c11c01 as _u
 
 EXPLANATION = (
     "Static guard-rail rules for inference soundness, evaluated on the AST of "
@@ -110,22 +112,41 @@ def _val_name(node):
   return d.split(".")[-1] if d else src(node)
 
 
-def _resolve_jump_call(methods, name, seen=()):
-  """Follows `return self.byte_X(state, op)` delegation to the jump_if call."""
+def _is_jump_if(call):
+  return (dotted(call.func) or "").endswith("jump_if")
+
+
+def _resolve_jump_args(methods, name, seen=()):
+  """(jump_if_val node, pop node or None) the handler `name` hands to
+  vm_utils.jump_if, following `self.<method>(..)` delegation (sibling byte_
+  handlers, shared private helpers; methods resolved through the module-local
+  MRO) with the delegate's parameters replaced by the caller's arguments."""
   if name in seen or name not in methods:
     return None
   fn = methods[name]
-  calls = [c for c in calls_in(fn) if (dotted(c.func) or "").endswith("jump_if")]
+  calls = [c for c in calls_in(fn) if _is_jump_if(c)]
   if len(calls) == 1:
-    return calls[0]
+    return kwarg(calls[0], "jump_if_val"), kwarg(calls[0], "pop")
   if calls:
     return None
   for c in calls_in(fn):
     d = dotted(c.func) or ""
-    if d.startswith("self.byte_"):
-      r = _resolve_jump_call(methods, d[len("self."):], seen + (name,))
-      if r is not None:
-        return r
+    if not (d.startswith("self.") and d.count(".") == 1):
+      continue
+    callee = d[len("self."):]
+    par = None
+    if not callee.startswith("byte_"):
+      # a shared helper: only when the handler returns its result
+      par = [n for n in ast.walk(fn) if isinstance(n, ast.Return) and n.value is c]
+      if not par:
+        continue
+    r = _resolve_jump_args(methods, callee, seen + (name,))
+    if r is None:
+      continue
+    binding = _u.bind_call(methods[callee], c, skip_self=True)
+    if binding is None:
+      return None
+    return tuple(binding.get(x.id, x) if isinstance(x, ast.Name) else x for x in r)
   return None
 
 
@@ -133,7 +154,7 @@ def _resolve_jump_call(methods, name, seen=()):
 def r1_1(ctx):
   """Conditional-jump handlers pass the polarity their opcode name states."""
   mod = get_module(ctx, VM)
-  methods = mod.methods("VirtualMachine")
+  methods = _u.methods_mro(mod, "VirtualMachine")
   for name, fn in sorted(methods.items()):
     if not name.startswith("byte_"):
       continue
@@ -141,18 +162,130 @@ def r1_1(ctx):
     expect = _polarity_from_name(op)
     if expect is None or "JUMP" not in op:
       continue
-    call = _resolve_jump_call(methods, name)
-    if call is None:
+    got = _resolve_jump_args(methods, name)
+    if got is None:
       ctx.bad(op, VM, fn.lineno,
               "conditional-jump handler does not reach vm_utils.jump_if")
       continue
-    got_val = _val_name(kwarg(call, "jump_if_val"))
-    popn = kwarg(call, "pop")
+    got_val = _val_name(got[0])
+    popn = got[1]
     got_pop = _val_name(popn) if popn is not None else "NONE"
     facts = {"expected": expect, "jump_if_val": got_val, "pop": got_pop}
     ctx.check((got_val, got_pop) == expect, op, VM, fn.lineno,
               f"handler passes jump_if_val={got_val}, pop={got_pop} but the "
               f"opcode name states {expect}", facts)
+
+
+# -- R1.2: vm_utils.jump_if, decided by small-scope evaluation ----------------------------------
+
+def _same(a, b):
+  """Identity for sentinels, equality of type and value for True/False/None."""
+  return a is b
+
+
+def _jump_if_runs(ctx, mod):
+  """Evaluates vm_utils.jump_if (rules/_minieval: from its AST, module-local
+  helpers followed) for every jump value x pop behaviour x outcome of the two
+  restrict_condition calls, in a world of opaque records: FrameState with
+  pop/top/pop_and_discard/set_why/forward_cfg_node returning new records that
+  remember how they were derived, ctx.vm.store_jump recording its arguments,
+  <state module>.restrict_condition answering from a table keyed by the
+  condition it is asked about.  -> list of run records."""
+  fn = mod.func("jump_if")
+  pos = [a.arg for a in fn.args.posonlyargs + fn.args.args]
+  kwonly = [a.arg for a in fn.args.kwonlyargs]
+  if len(pos) != 3 or "jump_if_val" not in pos + kwonly or "pop" not in pos + kwonly:
+    raise AnalysisError("jump_if: signature (state, op, ctx, *, jump_if_val, pop) "
+                        "not recognised")
+  p_state, p_op, p_ctx = pos
+  aliases = {c.func.value.id for f in _u.reachable_functions(mod, fn)
+             for c in calls_in(f) if isinstance(c.func, ast.Attribute)
+             and c.func.attr == "restrict_condition"
+             and isinstance(c.func.value, ast.Name)}
+  if len(aliases) != 1:
+    raise AnalysisError("jump_if: no `<state module>.restrict_condition(..)` call "
+                        f"found (receivers {sorted(aliases)})")
+  alias = aliases.pop()
+  if not mod.imports.get(alias, "").endswith("state"):
+    raise AnalysisError(f"jump_if: `{alias}` is not the imported state module")
+  pops = [t.id for st in mod.cls("PopBehavior").body if isinstance(st, ast.Assign)
+          for t in st.targets if isinstance(t, ast.Name)]
+  if sorted(pops) != ["ALWAYS", "NONE", "OR"]:
+    raise AnalysisError(f"PopBehavior members {pops} not understood")
+  not_none = _me.Obj(("NOT_NONE",))
+  unsat = _me.Obj(("UNSATISFIABLE",))
+  pop_objs = {n: _me.Obj((f"PopBehavior.{n}",)) for n in pops}
+  value = _me.Obj(("Variable",))
+  target = _me.Obj(("Target",))
+
+  def complement(jv):
+    if jv is None:
+      return not_none
+    if jv is not_none:
+      return None
+    return not jv
+  runs = []
+  for jv in (True, False, None, not_none):
+    for pop in pops:
+      for j_kind in ("unsat", "none", "cond"):
+        for n_kind in ("unsat", "none", "cond"):
+          outcome = {}
+          for side, kind in (("J", j_kind), ("N", n_kind)):
+            outcome[side] = unsat if kind == "unsat" else None if kind == "none" \
+                else _me.Obj(("Condition", side), {"binding": _me.Obj(("Binding", side))})
+          rec = {"jv": jv, "pop": pop, "J": outcome["J"], "N": outcome["N"],
+                 "restrict": [], "stored": [], "unsat": unsat}
+
+          def mk_state(trace, node):
+            st = _me.Obj(("FrameState",), {"node": node, "trace": trace})
+            st.methods.update({
+                "pop": lambda: (mk_state(trace + (("pop",),), node), value),
+                "top": lambda: value,
+                "pop_and_discard": lambda: mk_state(trace + (("pop_and_discard",),), node),
+                "set_why": lambda why: mk_state(trace + (("why", why),), node),
+                "forward_cfg_node": lambda new_name, condition=None: mk_state(
+                    trace + (("fwd", new_name, condition),), _me.Obj(("CFGNode",))),
+            })
+            return st
+
+          def restrict(node, var, cond, rec=rec, jv=jv):
+            rec["restrict"].append((node, var, cond))
+            if _same(cond, jv):
+              return rec["J"]
+            return rec["N"]
+
+          def store_jump(tgt, st, rec=rec):
+            rec["stored"].append((tgt, st))
+          world = {
+              alias: _me.Obj(("module state",), {"NOT_NONE": not_none, "UNSATISFIABLE": unsat},
+                             {"restrict_condition": restrict}),
+              "PopBehavior": _me.Obj(("PopBehavior",), pop_objs),
+          }
+          node0 = _me.Obj(("CFGNode",))
+          s0 = mk_state((), node0)
+          rec["node"], rec["value"], rec["target"] = node0, value, target
+          run = _u.module_world(mod, world)
+          try:
+            rec["result"] = run("jump_if", **{
+                p_state: s0, p_op: _me.Obj(("Opcode",), {"target": target}),
+                p_ctx: _me.Obj(("Context",), {"vm": _me.Obj(("VM",), {}, {"store_jump": store_jump})}),
+                "jump_if_val": jv, "pop": pop_objs[pop]})
+          except _me.Outside as e:
+            raise AnalysisError(f"jump_if uses a construct outside the evaluated "
+                                f"fragment: {e}") from e
+          except (_me.Raised, _me.Diverged) as e:
+            raise AnalysisError(
+                f"jump_if(jump_if_val={jv!r}, pop={pop}) raised {e!r} in the "
+                "world model: cannot decide") from e
+          rec["complement"] = complement(jv)
+          runs.append(rec)
+  return runs
+
+
+def _show(v):
+  if isinstance(v, _me.Obj):
+    return "/".join(v.kinds)
+  return repr(v)
 
 
 @rule("R1.2", "C01", floor=4)
@@ -161,53 +294,84 @@ def r1_2(ctx):
   rel = "pytype/vm_utils.py"
   mod = get_module(ctx, rel)
   fn = mod.func("jump_if")
-  # Extract the if/elif chain assigning normal_val as a table test -> value.
-  table = {}
-  for node in ast.walk(fn):
-    if isinstance(node, ast.If):
-      for st in node.body:
-        if isinstance(st, ast.Assign) and len(st.targets) == 1 and \
-            dotted(st.targets[0]) == "normal_val":
-          table[src(node.test)] = src(st.value)
-  want = {
-      "jump_if_val is None": ("frame_state.NOT_NONE", "None -> NOT_NONE"),
-      "jump_if_val is frame_state.NOT_NONE": ("None", "NOT_NONE -> None"),
-      "isinstance(jump_if_val, bool)": ("not jump_if_val", "bool -> negation"),
-  }
-  if set(table) != set(want):
-    raise AnalysisError(
-        f"jump_if complement chain has unknown shape: {sorted(table)}")
-  for test, (val, label) in want.items():
-    ctx.check(table[test] == val, f"complement:{label}", rel, fn.lineno,
-              f"`{test}` assigns normal_val = {table[test]}, expected {val}",
-              {"test": test, "value": table[test]})
-  # both restrict_condition calls: same node/value, jump_if_val vs normal_val
-  calls = [c for c in calls_in(fn) if (dotted(c.func) or "").endswith("restrict_condition")]
-  args = sorted((src(c.args[0]), src(c.args[1]), src(c.args[2])) for c in calls
-                if len(c.args) == 3)
-  ok = (len(args) == 2 and args[0][:2] == args[1][:2]
-        and {args[0][2], args[1][2]} == {"jump_if_val", "normal_val"})
-  # which result is used for the jump edge?
-  assigns = {}
-  for st in ast.walk(fn):
-    if isinstance(st, ast.Assign) and isinstance(st.value, ast.Call) and \
-        (dotted(st.value.func) or "").endswith("restrict_condition") and \
-        len(st.value.args) == 3:
-      assigns[dotted(st.targets[0])] = src(st.value.args[2])
-  ok = ok and assigns == {"jump": "jump_if_val", "normal": "normal_val"}
-  ctx.check(ok, "restrict_condition-pair", rel, fn.lineno,
-            f"restrict_condition calls are {args}, bound as {assigns}; expected "
-            "jump<-jump_if_val and normal<-normal_val on the same variable",
-            {"calls": args, "bound": assigns})
-  # store_jump uses the state derived from `jump`, return uses `normal`
-  sj = [c for c in calls_in(fn) if (dotted(c.func) or "").endswith("store_jump")]
-  ok2 = len(sj) == 1 and src(sj[0].args[0]) == "op.target"
-  g = flow.guards(mod.parent, mod.enclosing_stmt(sj[0]), stop=fn) if sj else []
-  gtxt = [(src(t), p) for t, p in g]
-  ok2 = ok2 and ("jump is not frame_state.UNSATISFIABLE", True) in gtxt
-  ctx.check(ok2, "jump-edge-guard", rel, sj[0].lineno if sj else fn.lineno,
-            f"store_jump(op.target, ..) must be guarded by the jump-side "
-            f"condition being satisfiable; guards={gtxt}", {"guards": gtxt})
+  runs = _jump_if_runs(ctx, mod)
+  # (1) the fall-through side is restricted by the exact complement
+  labels = [(None, "None -> NOT_NONE"), ("NOT_NONE", "NOT_NONE -> None"),
+            (True, "bool -> negation"), (False, "bool -> negation")]
+  seen = {}
+  for r in runs:
+    jv = r["jv"]
+    label = "None -> NOT_NONE" if jv is None else "bool -> negation" \
+        if isinstance(jv, bool) else "NOT_NONE -> None"
+    conds = [c for _, _, c in r["restrict"]]
+    others = [c for c in conds if not _same(c, jv)]
+    ok = len(conds) == 2 and len(others) == 1 and _same(others[0], r["complement"])
+    e = seen.setdefault(label, {"ok": True, "asked": set()})
+    e["ok"] = e["ok"] and ok
+    e["asked"].add(f"jump_if_val={_show(jv)}: restrict_condition asked about "
+                   f"{[_show(c) for c in conds]}")
+  del labels
+  for label in ("None -> NOT_NONE", "NOT_NONE -> None", "bool -> negation"):
+    e = seen[label]
+    ctx.check(e["ok"], f"complement:{label}", rel, fn.lineno,
+              "the two restrict_condition calls must ask about jump_if_val and "
+              f"its exact complement; observed {sorted(e['asked'])}",
+              {"observed": sorted(e["asked"])})
+  # (2) same node / variable; each answer is used for its own edge
+  bad = []
+  for r in runs:
+    tag = f"jump_if_val={_show(r['jv'])}, pop={r['pop']}, jump side {_show(r['J'])}, " \
+        f"fall-through side {_show(r['N'])}"
+    if any(n is not r["node"] or v is not r["value"] for n, v, _ in r["restrict"]):
+      bad.append(f"{tag}: restrict_condition called on another node/variable")
+      continue
+    res, n = r["result"], r["N"]
+    trace = res.attrs.get("trace") if isinstance(res, _me.Obj) else None
+    if trace is None:
+      bad.append(f"{tag}: result is {_show(res)}, not a frame state")
+    elif n is r["unsat"]:
+      if not (trace and trace[-1] == ("why", "unsatisfiable")):
+        bad.append(f"{tag}: an unsatisfiable fall-through side must end the block "
+                   f"(set_why('unsatisfiable')), result derived by {trace}")
+    elif n is not None:
+      if not (trace and trace[-1][0] == "fwd" and trace[-1][2] is n.attrs["binding"]):
+        bad.append(f"{tag}: the fall-through state must be conditioned on the "
+                   f"fall-through side's binding, result derived by {trace}")
+    else:
+      if any(x[0] == "why" for x in trace) or any(
+          x[0] == "fwd" and x[2] is not None for x in trace):
+        bad.append(f"{tag}: unrestricted fall-through side, but the result was "
+                   f"derived by {trace}")
+  ctx.check(not bad, "restrict_condition-pair", rel, fn.lineno,
+            "restrict_condition must be asked about the same node and variable "
+            "for jump_if_val and normal_val, and the fall-through state must "
+            f"come from the normal_val answer: {bad[:3]}",
+            {"runs": len(runs), "problems": bad[:5]})
+  # (3) the jump edge is stored iff the jump side is satisfiable
+  bad = []
+  for r in runs:
+    tag = f"jump_if_val={_show(r['jv'])}, pop={r['pop']}, jump side {_show(r['J'])}, " \
+        f"fall-through side {_show(r['N'])}"
+    j = r["J"]
+    if j is r["unsat"]:
+      if r["stored"]:
+        bad.append(f"{tag}: store_jump called although the jump side is unsatisfiable")
+      continue
+    if len(r["stored"]) != 1:
+      bad.append(f"{tag}: store_jump called {len(r['stored'])} times")
+      continue
+    tgt, st = r["stored"][0]
+    trace = st.attrs.get("trace") if isinstance(st, _me.Obj) else None
+    fwd = [x for x in (trace or ()) if x[0] == "fwd"]
+    conds = [x[2] for x in fwd if x[2] is not None]
+    want = [j.attrs["binding"]] if j is not None else []
+    if tgt is not r["target"] or not fwd or any(x[1] != "Jump" for x in fwd) or \
+        len(conds) != len(want) or any(a is not b for a, b in zip(conds, want)):
+      bad.append(f"{tag}: store_jump({_show(tgt)}, state derived by {trace})")
+  ctx.check(not bad, "jump-edge-guard", rel, fn.lineno,
+            "store_jump(op.target, ..) must run exactly when the jump-side "
+            "condition is satisfiable, with a state conditioned on the jump "
+            f"side's binding: {bad[:3]}", {"runs": len(runs), "problems": bad[:5]})
 
 
 def _returns(fn):
@@ -271,64 +435,28 @@ def r1_3(ctx):
   ctx.check(ok, "_is_or_is_not_cmp:same-class-instances", rel, tail.lineno,
             "two instances of the same class may or may not be identical: "
             "the arm must end in `return None`", {"tail": src(tail)})
-  # restrict_condition
-  fn = mod.func("restrict_condition")
-  rets = _returns(fn)
-  none_rets = [r for r in rets if isinstance(r.value, ast.Constant) and r.value.value is None]
-  ok = len(none_rets) == 1
-  gtxt = []
-  if ok:
-    g = flow.guards(mod.parent, none_rets[0], stop=fn)
-    gtxt = [(src(t), p) for t, p in g]
-    ok = ("restricted", False) in gtxt and ("not dnf", False) in gtxt
-  ctx.check(ok, "restrict_condition:no-restriction", rel,
-            none_rets[0].lineno if none_rets else fn.lineno,
-            "`return None` (no restriction) must be reached exactly when "
-            f"some binding matched and none was rejected; guards={gtxt}",
-            {"guards": gtxt})
-  # `restricted = True` only in the non-matching arm of the per-binding test
-  sets = [n for n in ast.walk(fn) if isinstance(n, ast.Assign)
-          and dotted(n.targets[0]) == "restricted"
-          and isinstance(n.value, ast.Constant) and n.value.value is True]
-  ok = len(sets) == 1
-  gtxt = []
-  if ok:
-    gtxt = [(src(t), p) for t, p in flow.guards(mod.parent, sets[0], stop=fn)]
-    ok = ("match_result", False) in gtxt
-  apps = [c for c in calls_in(fn) if dotted(c.func) == "dnf.append"]
-  ok = ok and len(apps) == 1 and ("match_result", True) in [
-      (src(t), p) for t, p in flow.guards(mod.parent, mod.enclosing_stmt(apps[0]), stop=fn)]
-  ctx.check(ok, "restrict_condition:per-binding", rel, fn.lineno,
-            "a binding must be kept (dnf.append) iff its match result is "
-            "truthy and only a rejected binding may set `restricted`",
-            {"restricted_guards": gtxt})
-  # _match_condition wiring: bool -> compatible_with, None -> compatible_with_none
-  fn = mod.func("_match_condition")
-  wiring = {}
-  for n in ast.walk(fn):
-    if isinstance(n, ast.If):
-      r = n.body[-1]
-      if isinstance(r, ast.Return):
-        wiring[src(n.test)] = src(r.value)
-  ok = (wiring.get("isinstance(condition, bool)") == "compare.compatible_with(value, condition)"
-        and wiring.get("condition is None") == "compare.compatible_with_none(value)")
-  tail = fn.body[-1]
-  while isinstance(tail, ast.If):
-    tail = tail.orelse[-1] if tail.orelse else tail.body[-1]
-  ok = ok and isinstance(tail, ast.Return) and \
-      src(tail.value) == "value.full_name != 'builtins.NoneType'"
-  ctx.check(ok, "_match_condition:wiring", rel, fn.lineno,
-            f"condition kinds must be matched by their own predicate: {wiring}",
-            {"wiring": wiring, "tail": src(tail)})
+  # restrict_condition / _match_condition: decided by small-scope evaluation
+  _restrict_condition_checks(ctx, mod, rel)
   # pytd_for_types: no-visible-options arm and Empty arm emit Any
   rel = "pytype/tracer_vm.py"
   mod = get_module(ctx, rel)
   fn = mod.func("CallTracer.pytd_for_types")
-  found_empty = found_noopt = False
-  for n in ast.walk(fn):
-    if isinstance(n, ast.If) and src(n.test) == "isinstance(option, abstract.Empty)":
-      st = n.body[0]
-      found_empty = isinstance(st, ast.Assign) and src(st.value) == "pytd.AnythingType()"
+  found_noopt = False
+  # the Empty arm: in pytd_for_types or a method it calls (self.<m>(..), through
+  # the module-local MRO).  A vanished arm is an analysis error, an arm that
+  # assigns something else a violation.
+  empty_arms = [n for f in _u.reachable_functions(mod, fn, cls="CallTracer")
+                for n in ast.walk(f) if isinstance(n, ast.If)
+                and isinstance(n.test, ast.Call) and dotted(n.test.func) == "isinstance"
+                and len(n.test.args) == 2 and isinstance(n.test.args[0], ast.Name)
+                and dotted(n.test.args[1]) == "abstract.Empty"]
+  if len(empty_arms) != 1:
+    raise AnalysisError(
+        "pytd_for_types: expected one `if isinstance(<option>, abstract.Empty):` "
+        f"arm in it or the methods it calls, found {len(empty_arms)}")
+  st = empty_arms[0].body[0]
+  found_empty = len(empty_arms[0].body) == 1 and isinstance(st, ast.Assign) and \
+      src(st.value) == "pytd.AnythingType()"
   # the final else of the `if len(options) > 1 ... elif options: ... else:` chain
   for n in ast.walk(fn):
     if isinstance(n, ast.If) and src(n.test) == "options" and n.orelse:
@@ -338,6 +466,128 @@ def r1_3(ctx):
             "an abstract.Empty option must be emitted as Any")
   ctx.check(found_noopt, "pytd_for_types:no-options->Any", rel, fn.lineno,
             "a name with no visible option must be emitted as Any")
+
+
+def _restrict_condition_checks(ctx, mod, rel):
+  """state.restrict_condition and state._match_condition are evaluated from
+  their AST (rules/_minieval) on every vector of up to three bindings x every
+  kind of condition, in a world where compare.compatible_with[_none] answer
+  from a table; the specification is relational, so loops, comprehensions,
+  early returns and extracted helpers are all the same to the rule."""
+  fn = mod.func("restrict_condition")
+  params = [a.arg for a in fn.args.args]
+  if len(params) != 3:
+    raise AnalysisError("restrict_condition(node, var, condition) not recognised")
+  for name in ("UNSATISFIABLE", "NOT_NONE"):
+    v = mod.assigns.get(name)
+    if not (isinstance(v, ast.Call) and dotted(v.func) == "object" and not v.args):
+      raise AnalysisError(f"state.{name} is not a module-level `object()` sentinel")
+  unsat = _me.Obj(("UNSATISFIABLE",))
+  not_none = _me.Obj(("NOT_NONE",))
+  world = {"UNSATISFIABLE": unsat, "NOT_NONE": not_none}
+
+  def evaluate(name, args, table, calls):
+    def resolver(dotted_name, a, kw):
+      if dotted_name == "compare.compatible_with" and len(a) == 2 and not kw:
+        calls.append(("compatible_with", a[0], a[1]))
+        return table[id(a[0])]
+      if dotted_name == "compare.compatible_with_none" and len(a) == 1 and not kw:
+        calls.append(("compatible_with_none", a[0]))
+        return table[id(a[0])]
+      if dotted_name.startswith("compare."):
+        raise _me.Outside(f"unknown predicate {dotted_name}")
+      return NotImplemented
+    try:
+      return _u.module_world(mod, world, resolver)(name, **args)
+    except _me.Outside as e:
+      raise AnalysisError(f"state.{name} uses a construct outside the evaluated "
+                          f"fragment: {e}") from e
+    except (_me.Raised, _me.Diverged) as e:
+      raise AnalysisError(f"state.{name} raised {e!r} in the world model: "
+                          "cannot decide") from e
+
+  def value(matches):
+    return _me.Obj(("Value",), {"full_name": "builtins.int" if matches
+                                else "builtins.NoneType"})
+  conditions = [("True", True), ("False", False), ("None", None), ("NOT_NONE", not_none)]
+  # _match_condition: each kind of condition is matched by its own predicate
+  mc = mod.func("_match_condition")
+  mparams = [a.arg for a in mc.args.args]
+  if len(mparams) != 2:
+    raise AnalysisError("_match_condition(value, condition) not recognised")
+  wiring, wrong = {}, []
+  for cname, cond in conditions:
+    for m in (True, False):
+      v = value(m)
+      calls = []
+      res = evaluate("_match_condition", {mparams[0]: v, mparams[1]: cond},
+                     {id(v): m}, calls)
+      if isinstance(cond, bool):
+        want = [("compatible_with", v, cond)]
+      elif cond is None:
+        want = [("compatible_with_none", v)]
+      else:
+        want = []
+      same = len(calls) == len(want) and all(
+          c[0] == w[0] and c[1] is w[1] and (len(w) < 3 or c[2] is w[2])
+          for c, w in zip(calls, want))
+      wiring[cname] = [c[0] + (f"(value, {c[2]!r})" if len(c) == 3 else "(value)")
+                       for c in calls] or ["value.full_name test"]
+      if not same or _me.Interp.truth(res) != m:
+        wrong.append(f"condition {cname}, value that {'matches' if m else 'does not match'}: "
+                     f"asked {wiring[cname]}, answered {res!r}")
+  ctx.check(not wrong, "_match_condition:wiring", rel, mc.lineno,
+            f"condition kinds must be matched by their own predicate: {wrong[:3]}",
+            {"wiring": wiring})
+  # restrict_condition
+  node = _me.Obj(("CFGNode",))
+  none_wrong, binding_wrong = [], []
+  runs = 0
+  for cname, cond in conditions:
+    for n in range(4):
+      for bits in range(2 ** n):
+        vec = [bool(bits >> i & 1) for i in range(n)]
+        vals = [value(m) for m in vec]
+        bindings = [_me.Obj(("Binding", str(i)), {"data": v}) for i, v in enumerate(vals)]
+        var = _me.Obj(("Variable",), {"bindings": list(bindings)})
+        calls = []
+        res = evaluate("restrict_condition",
+                       {params[0]: node, params[1]: var, params[2]: cond},
+                       {id(v): m for v, m in zip(vals, vec)}, calls)
+        runs += 1
+        tag = f"condition {cname}, bindings that match: {vec}"
+        if any(len(c) == 3 and c[2] is not cond for c in calls):
+          binding_wrong.append(f"{tag}: a binding was matched against another condition")
+        if (res is None) != (bool(vec) and all(vec)):
+          none_wrong.append(f"{tag}: returned {_show(res) if res is not None else None}")
+          continue
+        if res is None:
+          continue
+        kept = [b for b, m in zip(bindings, vec) if m]
+        if not kept:
+          if res is not unsat:
+            binding_wrong.append(f"{tag}: expected UNSATISFIABLE, got {_show(res)}")
+          continue
+        args = res.attrs.get("args") if isinstance(res, _me.Obj) and \
+            res.kinds == ("Condition",) else None
+        if args is None or len(args) != 2 or len(res.attrs) != 1:
+          raise AnalysisError(f"restrict_condition: result {res!r} is not "
+                              "Condition(node, dnf)")
+        dnf = args[1]
+        shape = isinstance(dnf, (list, tuple)) and all(
+            isinstance(c, (list, tuple)) and len(c) == 1 for c in dnf)
+        if args[0] is not node or not shape or len(dnf) != len(kept) or \
+            any(c[0] is not b for c, b in zip(dnf, kept)):
+          binding_wrong.append(f"{tag}: Condition built from {dnf!r}")
+  ctx.check(not none_wrong, "restrict_condition:no-restriction", rel, fn.lineno,
+            "`None` (no restriction) must be returned exactly when some binding "
+            f"matched and none was rejected: {none_wrong[:3]}",
+            {"runs": runs, "problems": none_wrong[:5]})
+  ctx.check(not binding_wrong, "restrict_condition:per-binding", rel, fn.lineno,
+            "the result must keep exactly the bindings whose match result is "
+            "truthy (UNSATISFIABLE when there is none), each matched against "
+            f"the given condition: {binding_wrong[:3]}",
+            {"runs": runs, "problems": binding_wrong[:5]})
 
 
 _CMP_AST = {"==": ast.Eq, "!=": ast.NotEq, "<": ast.Lt, "<=": ast.LtE,
@@ -403,7 +653,9 @@ def r1_5(ctx):
   rel = "pytype/io.py"
   mod = get_module(ctx, rel)
   fn = mod.func("generate_pyi_ast")
-  calls = [c for c in calls_in(fn) if dotted(c.func) == "optimize.Optimize"]
+  # in generate_pyi_ast itself or a module-local helper it calls
+  calls = [c for f in _u.reachable_functions(mod, fn) for c in calls_in(f)
+           if dotted(c.func) == "optimize.Optimize"]
   if len(calls) != 1:
     raise AnalysisError("generate_pyi_ast: optimize.Optimize call not found")
   kws = {k.arg: try_fold(k.value, default=src(k.value)) for k in calls[0].keywords}
